@@ -36,7 +36,8 @@ EXPLANATION = (
     "'assigned to a member/element/global or passed on to a stored parameter', virtual calls expanded) and then delete it "
     "without taking it back or re-assigning it. (E2t) every strncpy into a fixed char array with a constant size is followed, on every path to the next use of the array, by a store of 0 at an index not above that size - or cannot need one (literal source shorter than the size; zero-initialised storage whose tail is never written; a constructor-established terminator beyond the size; identifier sources under the identifier-length assumption). (R7) a call that passes a link field of a list / tree node (pointer fields whose pointee is the record's own hierarchy; NULL at the ends) to a function that dereferences the parameter, or calls a member function through it, before any test (summaries from the may-be-NULL walk) is guarded by a test of that field in the caller (two sites exempt with their invariant). (R6) pointer members that a non-destructor method leaves untouched while it frees the objects reached through a sibling member of the same type (discovered: SingleLinkList::tail vs head in Empty()) are dereferenced only where the sibling is known to be non-NULL or after an assignment in the same function. (R5) every call-graph cycle reachable from the entry points (Tarjan over the resolved call graph with class-hierarchy expansion) consists of functions classified in tables/c05_recursion.json by what bounds the depth (schema structure, constant, dead branch, or only the input); input-bounded cycles and unlisted recursive functions fail. Not decided: heap lifetime beyond R4, integer overflow, the exact depth at which an input-bounded recursion exhausts the stack, time proportional to input, "
     "judy.c / sc_hash.cc internals (vendored containers with structural invariants)."
-    " (R8, shared with C06 R6N) a local pointer is not dereferenced where every definition that reaches the dereference is the null constant.")
+    " (R8, shared with C06 R6N) a local pointer is not dereferenced where every definition that reaches the dereference is the null constant."
+    " (R9) after `delete p` neither p nor a variable p was copied to is dereferenced (or deleted again) before it is assigned something else: typestate 'set of dangling variables' over the flag-consistent paths of every function that deletes a local pointer.")
 
 ENTRIES = ["STEPfile::ReadExchangeFile", "STEPfile::AppendExchangeFile", "STEPfile::ReadWorkingFile",
            "STEPfile::AppendWorkingFile", "STEPfile::WriteExchangeFile", "STEPfile::WriteWorkingFile",
@@ -298,6 +299,111 @@ def r7_link_argument(prog, res):
     res.floor("R7.link_argument_tested", "calls that pass a link field of a node", n, 3)
 
 
+def r9_no_use_after_delete(prog, res, components=None, rule="R9.no_use_after_delete", floor=25):
+    """After `delete p` (p a local or parameter) the value of p is dangling; so is every variable it is copied to (`prev = p`) until
+    that variable is assigned something else.  Typestate over the flag-consistent paths of the function (pathstate): the set of
+    dangling variables; `delete x` adds x; `y = x` with x dangling adds y, any other assignment to y removes it; a dereference of a
+    dangling variable (`y->f`, `*y`, `y[i]`, a member call through y, a second delete) is reported.  The splice loop of
+    STEPcomplex::Initialize advances `prev` only onto nodes it kept; moving that assignment into the loop header makes `prev` follow a
+    node that was just deleted, and the next removal writes `prev->next` through freed memory."""
+    import pathstate
+    from ir import expr_str as _es, strip
+
+    def core(n):
+        n = strip(n)
+        while n is not None and n["k"] in ("Cast", "Paren") and n.get("ch"):
+            n = strip(n["ch"][0])
+        return n
+    from engines import call_args
+
+    def is_release(n):
+        return (n["k"] == "Delete" and n.get("ch")) or (n["k"] == "Call" and n.get("fn") in ("free", "sc_free") and call_args(n))
+    nfun = ndel = 0
+    for f in prog.all_functions():
+        if f.component == "test" or f.component not in (components or UNITS["components"]) or f.cfg is None:
+            continue
+        dels = []
+        for n in f.walk():
+            if is_release(n):
+                p = core(n["ch"][0]) if n["k"] == "Delete" else core(call_args(n)[0])
+                if p is not None and p["k"] == "Ref" and p.get("dk") in ("local", "param"):
+                    dels.append((n, p))
+        if not dels:
+            continue
+        # variables whose address is taken can change behind the walk's back: not decided
+        addr = {core(y["ch"][0]).get("d") for y in f.walk() if y["k"] == "Unary" and y.get("op") == "&" and y.get("ch") and
+                core(y["ch"][0]) is not None and core(y["ch"][0])["k"] == "Ref"}
+        dels = [(n, p) for n, p in dels if p["d"] not in addr]
+        if not dels:
+            continue
+        nfun += 1
+        ndel += len(dels)
+        hits = {}
+
+        def deref_of(nd):
+            """variables that nd dereferences directly"""
+            out = []
+            k = nd["k"]
+            if k == "Member" and nd.get("arrow") and nd.get("ch"):
+                b = core(nd["ch"][0])
+                if b is not None and b["k"] == "Ref":
+                    out.append(b)
+            elif k == "Unary" and nd.get("op") == "*" and nd.get("ch"):
+                b = core(nd["ch"][0])
+                if b is not None and b["k"] == "Ref":
+                    out.append(b)
+            elif k == "Subscript" and nd.get("ch"):
+                b = core(nd["ch"][0])
+                if b is not None and b["k"] == "Ref" and "*" in f.ty(b):
+                    out.append(b)
+            elif k == "Call" and nd.get("member") and nd.get("ch"):
+                b = core(nd["ch"][0])
+                if b is not None and b["k"] == "Ref" and "*" in f.ty(b):
+                    out.append(b)
+            elif is_release(nd):
+                b = core(nd["ch"][0]) if k == "Delete" else core(call_args(nd)[0])
+                if b is not None and b["k"] == "Ref":
+                    out.append(b)
+            return out
+
+        def on_node(nd, ts, env, hits=hits):
+            k = nd["k"]
+            for b in deref_of(nd):
+                if b.get("d") in ts:
+                    hits.setdefault((nd["i"], b["d"]), (nd, b))
+            if is_release(nd):
+                p = core(nd["ch"][0]) if k == "Delete" else core(call_args(nd)[0])
+                if p is not None and p["k"] == "Ref" and p.get("dk") in ("local", "param") and p["d"] not in addr:
+                    return ts | {p["d"]}
+                return ts
+            if k == "Assign" and nd.get("op", "=") == "=":
+                l = core(nd["ch"][0])
+                if l is not None and l["k"] == "Ref":
+                    r = core(nd["ch"][1])
+                    if r is not None and r["k"] == "Ref" and r.get("d") in ts and l["d"] not in addr:
+                        return ts | {l["d"]}
+                    return ts - {l["d"]}
+                return ts
+            if k == "Var" and nd.get("d") is not None:
+                r = core(nd["ch"][0]) if nd.get("ch") and nd["ch"][0] is not None else None
+                if r is not None and r["k"] == "Ref" and r.get("d") in ts:
+                    return ts | {nd["d"]}
+                return ts - {nd["d"]}
+            return ts
+        try:
+            pathstate.walk(f, frozenset(), on_node)
+        except pathstate.Budget as ex:
+            res.broke("R9: %s" % ex)
+            continue
+        bad = sorted(hits.values(), key=lambda h: (h[0]["l"], h[0].get("c", 0)))
+        res.add(rule, "R9|%s|%s" % (f.relfile(), f.name), f.where(bad[0][0]) if bad else f.where(), not bad,
+                "no variable is dereferenced while it holds the value of a pointer that was deleted (%d delete site(s))" % len(dels) if not bad else
+                "`%s` is used at line %s (`%s`) while it can still hold a pointer that was deleted: write or read through freed memory"
+                % (bad[0][1]["n"], bad[0][0]["l"], _es(bad[0][0])[:60]))
+    res.info["r9_delete_sites"] = ndel
+    res.floor(rule, "functions that delete / free a local pointer", nfun, floor)
+
+
 def r5_recursion(prog, res, reachable):
     """Every call-graph cycle reachable from the entry points is classified by what bounds its depth (table
     tables/c05_recursion.json, one reason per function).  A cycle that contains a function of class `input` - only the file
@@ -392,6 +498,7 @@ def run(prog, res, tier):
     r5_recursion(prog, res, reachable)
     r6_stale_member(prog, res)
     r7_link_argument(prog, res)
+    r9_no_use_after_delete(prog, res)
     # a local pointer that only ever holds the null constant when it is dereferenced (rule shared with C06)
     from nullness import Nullness
     from rules import c06
